@@ -52,6 +52,9 @@ func (x *Exec) funcEnv(fr *Frame, st *State) *SpecEnv {
 			env.vars[p.Name()] = fr.params[k]
 		}
 	}
+	if fr.fn.Signature.Recv() != nil && len(fr.params) > 0 {
+		env.vars["self"] = fr.params[0]
+	}
 	return env
 }
 
@@ -89,17 +92,49 @@ func (e *SpecEnv) lookupName(name string) (Val, bool) {
 	if v, ok := e.bound[name]; ok {
 		return v, true
 	}
+	x := e.x
+	fr := e.fr
+	if e.loop != nil && len(name) > 0 && name[0] != '$' {
+		// loop-carried variables shadow parameters of the same name; the entry value of a
+		// parameter p stays available as p0
+		for l := e.loop; l != nil; l = enclosing(fr, l) {
+			for _, ins := range l.Header.Instrs {
+				phi, ok := ins.(*ssa.Phi)
+				if !ok {
+					break
+				}
+				if phi.Comment == name {
+					if l == e.loop {
+						return e.phiValue(phi), true
+					}
+					return x.valueOf(fr, phi), true
+				}
+			}
+		}
+	}
 	if v, ok := e.vars[name]; ok {
 		return v, true
 	}
-	x := e.x
-	fr := e.fr
+	if n := len(name); n > 1 && name[n-1] == '0' {
+		if v, ok := e.vars[name[:n-1]]; ok {
+			return v, true
+		}
+	}
 	if e.loop != nil {
 		if name == "$i" {
 			for _, ins := range e.loop.Header.Instrs {
 				if phi, ok := ins.(*ssa.Phi); ok && phi.Comment == "rangeindex" {
 					v := e.phiValue(phi)
 					return specInt(add(v.C[0], "1")), true
+				}
+			}
+		}
+		if name == "$map" {
+			for _, ins := range e.loop.Header.Instrs {
+				if nx, ok := ins.(*ssa.Next); ok {
+					if rng, ok := nx.Iter.(*ssa.Range); ok {
+						return x.valueOf(fr, rng.X), true
+					}
 				}
 			}
 		}
@@ -625,6 +660,19 @@ func init() {
 			h := e.x.comp(e.st, fmt.Sprintf("E$%s$0", typeKey(u.Elem())), elemSort(SInt))
 			return specInt(sx("prod", sel(h, v.base()), v.off(), v.slen()))
 		},
+		"allocated": func(e *SpecEnv, n ECall) Val {
+			v := e.eval(n.Args[0])
+			var r string
+			switch {
+			case isSlice(v.T):
+				r = v.base()
+			case isIface(v.T):
+				r = v.pay()
+			default:
+				r = v.C[0]
+			}
+			return boolVal(and(sx("<=", "0", r), sx("<", r, e.x.alloc(e.st))))
+		},
 		"sameslice": func(e *SpecEnv, n ECall) Val {
 			a := e.eval(n.Args[0])
 			b := e.eval(n.Args[1])
@@ -662,6 +710,7 @@ func init() {
 		},
 	}
 	registerGhostBuiltins()
+	registerOperatorBuiltins()
 }
 
 // ---------------------------------------------------------------------------------------
